@@ -32,6 +32,8 @@ pub enum Mode {
     BulkRecv(u16),
     /// the trigger spawns n tasks which log at once
     SpawnBurst(u16),
+    /// n tasks each sleep until the same instant T (all woken by one timer wake-up, no trigger needed)
+    Sleepers(u16),
 }
 
 #[derive(Clone, Debug, Serialize, Deserialize)]
@@ -239,6 +241,17 @@ impl Module for W {
                 Release::Bulk(tx, k)
             }
             Mode::SpawnBurst(n) => Release::Spawn(n as usize, yields, self.case.local),
+            Mode::Sleepers(n) => {
+                let t = du(self.case.t_ms as u128 * 1_000_000);
+                for i in 0..n as usize {
+                    let h = self.spawn(async move {
+                        sleep(t).await;
+                        after_wake(i).await;
+                    });
+                    current().join(h);
+                }
+                Release::None
+            }
         };
         if self.case.timer_trigger {
             let rel = match &self.release {
@@ -270,7 +283,7 @@ impl Module for W {
 
 fn expected_logs(case: &Case) -> usize {
     match case.mode {
-        Mode::Fanout(n, _) | Mode::Chain(n) | Mode::BulkRecv(n) | Mode::SpawnBurst(n) => n as usize,
+        Mode::Fanout(n, _) | Mode::Chain(n) | Mode::BulkRecv(n) | Mode::SpawnBurst(n) | Mode::Sleepers(n) => n as usize,
         Mode::JoinChain(n) => (n as usize).max(1),
     }
 }
@@ -391,7 +404,7 @@ impl Prop for C06 {
 
     fn rule() -> String {
         "proptest: a module whose tasks are parked on Notify / mpsc / oneshot / Semaphore (fan-out of n tasks), on a oneshot chain or a JoinHandle \
-         chain of depth d, on a bulk receive of k items in one task, or are spawned as a burst by the trigger; n, d, k in 1..300 (quick) / 1..5000 \
+         chain of depth d, on a bulk receive of k items in one task, or are spawned as a burst by the trigger, or all sleep until the same instant; n, d, k in 1..300 (quick) / 1..5000 \
          (thorough) with 59..64 and 120..130 over-sampled; 0..3 yield_now() calls inside each task; trigger = handle_message or a timer-woken task \
          at T; an unrelated later event at T2 > T; tokio::spawn or (from synchronous callbacks only) spawn_local. Oracle: every task's log entry \
          after its await carries exactly T, exactly one per task, run() is Ok (all joined), the later event is handled once. Non-trivial iff \
@@ -418,7 +431,8 @@ impl Prop for C06 {
             2 => n.clone().prop_map(Mode::Chain),
             1 => n.clone().prop_map(Mode::JoinChain),
             2 => prop_oneof![n.clone(), 100u16..1000].prop_map(Mode::BulkRecv),
-            2 => n.prop_map(Mode::SpawnBurst),
+            2 => n.clone().prop_map(Mode::SpawnBurst),
+            2 => n.prop_map(Mode::Sleepers),
         ];
         (mode, prop_oneof![2 => Just(0u8), 1 => 1u8..4], any::<bool>(), proptest::bool::weighted(0.2), 0u16..50, 1u16..5000)
             .prop_map(|(mode, yields, timer_trigger, local, t_ms, gap_ms)| Wrapped {
